@@ -1,5 +1,5 @@
 //@ tu: libxcm/tp/tls/xcm_tp_utls.c
-//@ flags: --max-field-sensitivity-array-size 1024
+//@ flags: --max-field-sensitivity-array-size 700
 //@ enforce: utls_init
 //@ replace: ux_proto tls_proto xcm_tp_socket_create xcm_tp_socket_init xcm_tp_socket_destroy
 //@ props: C08
@@ -13,5 +13,6 @@ void harness(void)
     long c0 = xv_sub_created, o0 = xv_sub_owing;
     int rv = utls_init(s, parent);
     if (rv == 0 && parent == NULL && xv_sub_created == c0 + 2 && xv_sub_owing == o0 + 2) XV_CANARY("two sub-sockets, no parent (connect, server)");
-    if (rv == 0 && parent != NULL) XV_CANARY("two sub-sockets inheriting from a parent (accept)");
+    if (rv == 0 && parent != NULL && xv_init_parent_ux != NULL && xv_init_parent_tls != NULL && xv_init_parent_ux != xv_init_parent_tls)
+        XV_CANARY("two sub-sockets inheriting from the matching sub-sockets of a parent (accept)");
 }
